@@ -117,7 +117,7 @@ def legal_combos(rule: str, hole: list, board: list, cc: int, bc: int, hc: int) 
 
 
 def h_compose(ctx: Any, base: str, rule: str, nh: int, nb: int, low: bool, validity: bool,
-              levels: int = 0, or_none: bool = False) -> None:
+              levels: int = 0, or_none: bool = False, as_iter: bool = False) -> None:
     import pokerkit.hands as H
     cls0 = getattr(H, base)
     cards = _deck()
@@ -134,12 +134,15 @@ def h_compose(ctx: Any, base: str, rule: str, nh: int, nb: int, low: bool, valid
     X.__name__ = X.__qualname__ = 'X' + base
     raised = False
     result = None
+    # State.get_hand / get_up_hand hand over one-shot iterables (filter objects, generators)
+    a_hole = (c for c in hole) if as_iter else hole
+    a_board = filter(None, board) if as_iter else board
     try:
         if or_none:
-            result = X.from_game_or_none(hole, board)
+            result = X.from_game_or_none(a_hole, a_board)
             raised = result is None
         else:
-            result = X.from_game(hole, board)
+            result = X.from_game(a_hole, a_board)
     except ValueError:
         raised = True
     except Exception as e:
@@ -268,6 +271,16 @@ def jobs(tier: str, seed: int) -> list[dict]:
         add(f'badugi/3/{L}', ['hand', 'none'], base='BadugiHand', rule='badugi', nh=3, nb=0, low=low,
             validity=True, levels=3)
         add(f'kuhn/3/{L}', ['hand'], base='KuhnPokerHand', rule='kuhn', nh=2, nb=1, low=low, validity=False, levels=3)
+    # the same rules fed with one-shot iterables, as State does
+    add('iter/any5of6', ['hand'], base='StandardHighHand', rule='any', nh=2, nb=4, low=False, validity=False, as_iter=True)
+    add('iter/greek/2h4b', ['hand'], base='GreekHoldemHand', rule='board', nh=2, nb=4, low=False, validity=False, as_iter=True)
+    add('iter/greek/2h5b', ['hand'], base='GreekHoldemHand', rule='board', nh=2, nb=5, low=False,
+        validity=False, levels=2, as_iter=True, or_none=True)
+    add('iter/omaha/3h4b', ['hand'], base='OmahaHoldemHand', rule='holeboard', nh=3, nb=4, low=True, validity=False,
+        levels=2, as_iter=True)
+    add('iter/badugi/3', ['hand', 'none'], base='BadugiHand', rule='badugi', nh=3, nb=0, low=True, validity=True,
+        levels=2, as_iter=True)
+    add('iter/kuhn/3', ['hand'], base='KuhnPokerHand', rule='kuhn', nh=2, nb=1, low=False, validity=False, levels=3, as_iter=True)
     # degenerate sizes: too few cards => no hand
     add('any/4cards', ['none'], base='StandardHighHand', rule='any', nh=2, nb=2, low=False, validity=False)
     add('omaha/1hole', ['none'], base='OmahaHoldemHand', rule='holeboard', nh=1, nb=4, low=False, validity=False)
